@@ -89,7 +89,8 @@ fn load_or_gen(bits: usize, seed: u64, idx: u8) -> Key {
 impl Env {
     pub fn new(o: &Opts) -> Env {
         let mut keys = vec![load_or_gen(1024, o.seed, 0), load_or_gen(1024, o.seed, 1)];
-        if o.tier == "thorough" { for bits in [2048, 3072, 4096] { keys.push(load_or_gen(bits, o.seed, 0)); } }
+        // a 2048-bit key also in the quick tier (keys[2]): the largest proofs (parameter 256) must round-trip too
+        for bits in if o.tier == "thorough" { vec![2048, 3072, 4096] } else { vec![2048] } { keys.push(load_or_gen(bits, o.seed, 0)); }
         Env { keys, small: load_or_gen(512, o.seed, 0) }
     }
     fn key(&self, id: &[u8]) -> Option<&Key> { self.keys.iter().chain(std::iter::once(&self.small)).find(|k| k.id == id) }
@@ -407,6 +408,17 @@ fn c09_curve<G: Cv>(o: &Opts, env: &Env, drv: &mut Driver, rep: &mut Report, rng
             _ => {}
         }
         honest::<G>(env, drv, rep, "honest", xname, x, &label, param, key, tape);
+    }
+    // the LARGEST serialised proofs: parameter 256 (and 255) under the widest key of the tier — sizes far above the default's
+    if let Some(big) = env.keys.iter().max_by_key(|k| k.bits) {
+        for (j, p) in [256usize, 255].iter().enumerate() {
+            if !thorough && j == 1 && !G::BE { continue; }
+            let (xname, x) = &xs[(j + 5) % xs.len()];
+            let mut label = vec![0u8; 7]; rng.fill_bytes(&mut label);
+            let tape = random_tape::<G>(rng, *p);
+            rep.hist(&format!("largest-proof:{}-bit key, parameter {p}", big.bits));
+            honest::<G>(env, drv, rep, "honest-largest", xname, x, &label, Some(*p), big, tape);
+        }
     }
     // EVERY nonce (and x) with zero bytes at an end of its repr: if all slots are skipped decryption fails, so these runs
     // see a decoder that mishandles short integer encodings even though one good slot normally hides it
